@@ -337,6 +337,8 @@ def _atx(ctx):
         return
     n = 5 if ctx.tier == "quick" else 7
     lines = ["".join(t) for k in range(1, n + 1) for t in itertools.product("# \ta", repeat=k)]
+    # every number of hashes around the limit behind every indentation, whatever follows
+    lines += [ind + "#" * k + tail for ind in ("", " ", "  ", "   ", "    ", "\t", " \t") for k in range(1, 9) for tail in ("", " a", "\ta", "a", " ", " a #", "#a")]
     lines = [l for l in lines if "#" in l] + ["#" * 6 + " a", "#" * 7 + " a", "   " + "#" * 6, "    # a", " \t# a", "#\ta #", "######\t"]
     lines = list(dict.fromkeys(lines))
     got = [r for ch in impl.pmap(_atx_call, [lines[i:i + 4000] for i in range(0, len(lines), 4000)], chunksize=1) for r in ch]
@@ -378,8 +380,49 @@ def _atx(ctx):
     ctx.unit("atx", lines=len(lines), documents=len(docs))
 
 
+def _at_call(strs):
+    from pymarkdown.inline.inline_helper import InlineHelper
+    from pymarkdown.general.parser_helper import ParserHelper
+    out = []
+    for s in strs:
+        try:
+            a = InlineHelper.append_text("x", s, add_text_signature=False)
+            b = InlineHelper.append_text("", s)
+            out.append((a, b, ParserHelper.remove_all_from_text(b), ParserHelper.resolve_all_from_text(b)))
+        except BaseException as e:  # noqa
+            out.append(("EXC:" + type(e).__name__, "", "", ""))
+    return out
+
+
+def _append_text(ctx):
+    """the escaping kernel: InlineHelper.append_text (with and without the signature) vs Model/AppendText.v append_impl on every
+    string over the four escaped characters, a letter, a space and a non-ASCII letter; and the property on the implementation:
+    the codec recovers the source from the signed text and resolves it to the escaped text"""
+    import html
+    import itertools
+    if "Model/AppendText.v" not in ctx.build.ok_files:
+        return
+    n = 4 if ctx.tier == "quick" else 6
+    strs = [""] + ["".join(t) for k in range(1, n + 1) for t in itertools.product('a<>&" é', repeat=k)]
+    got = [r for ch in impl.pmap(_at_call, [strs[i:i + 2000] for i in range(0, len(strs), 2000)], chunksize=1) for r in ch]
+    defs = ("Definition obs (s : str) := (append_impl [120%N] s false, append_impl [] s true).\n"
+            "Definition o_eqb (a b : option str) := match a, b with Some x, Some y => str_eqb x y | None, None => true | _, _ => false end.\n"
+            "Definition obs_eqb (a b : option str * option str) := o_eqb (fst a) (fst b) && o_eqb (snd a) (snd b).\n")
+    cases = []
+    for s, (a, b, src, res) in zip(strs, got):
+        ctx.count(1, "append-text/kernel")
+        cases.append((core.cstr(s), f"(Some {core.cstr(a)}, Some {core.cstr(b)})" if not a.startswith("EXC:") else "(None, None)"))
+        if not a.startswith("EXC:") and (src != s or res != html.escape(s, quote=True).replace("&#x27;", "'") or a != "x" + res):
+            ctx.violation("append-text", {"text": s}, f"append_text gives {a!r} / {b!r}; the codec recovers {src!r} and resolves to {res!r}", group="append-text")
+    bad = core.coq_mismatches(["PV.Base.Str", "PV.Model.Codec", "PV.Model.AppendText"], defs, "obs", cases, "c03at", eqb="obs_eqb", shard=1500)
+    ctx.corr_cases += len(cases)
+    for i in bad[:5]:
+        ctx.broke(f"model/implementation correspondence (Model/AppendText.v append_impl) differs on {strs[i]!r}: implementation {got[i][:2]!r}")
+    ctx.unit("append-text", strings=len(strs))
+
+
 def run(ctx):
-    ctx.prove("Props/C03.v", ["Model/AtxOpen.v", "Proofs/AtxOpenProofs.v", "Model/Tabs.v", "Proofs/TabsProofs.v", "Model/ThematicBreak.v", "Proofs/ThematicBreakProofs.v", "Model/LinkLabel.v", "Proofs/LinkLabelProofs.v", "Spec/CMBlock.v", "Proofs/CMProofs.v", "Proofs/CMFuel.v", "Proofs/CMInlineProofs.v", "Model/LinkDest.v", "Proofs/LinkDestProofs.v", "Extract/Extract.v"])
+    ctx.prove("Props/C03.v", ["Model/Codec.v", "Proofs/CodecProofs.v", "Model/AppendText.v", "Proofs/AppendTextProofs.v", "Model/AtxOpen.v", "Proofs/AtxOpenProofs.v", "Model/Tabs.v", "Proofs/TabsProofs.v", "Model/ThematicBreak.v", "Proofs/ThematicBreakProofs.v", "Model/LinkLabel.v", "Proofs/LinkLabelProofs.v", "Spec/CMBlock.v", "Proofs/CMProofs.v", "Proofs/CMFuel.v", "Proofs/CMInlineProofs.v", "Model/LinkDest.v", "Proofs/LinkDestProofs.v", "Extract/Extract.v"])
     # ---- (0) the spec model itself: the CommonMark examples inside F, and markdown-it on a sample
     exs = [e for e in cm.spec_examples() if "\t" not in e["markdown"]]
     res = cm.cm_html_many([e["markdown"] for e in exs])
@@ -439,6 +482,7 @@ def run(ctx):
     _linklabel(ctx)
     _thematic(ctx)
     _atx(ctx)
+    _append_text(ctx)
     ctx.sample({"doc": docs[keep[5]], "html": cmres[keep[5]][1]})
     ctx.trusted += [
         "the spec model coq/Spec/CMBlock.v is a specification written from the CommonMark text (validated each run against the CommonMark 0.31.2 examples inside F and against the vendored markdown-it-py on a sample); it is NOT a model of PyMarkdown",
@@ -447,12 +491,13 @@ def run(ctx):
         "link labels: Model/LinkLabel.v norm_impl / add_def / look_up (vm_compute) vs LinkParseHelper.normalize_link_label on every string over a 12-character alphabet up to a length, and vs add_link_definition / look_up_link on random scripts; documents with two definitions of one label in different spellings",
         "thematic breaks: Model/ThematicBreak.v tb_impl (vm_compute) vs ThematicLeafBlockProcessor.is_thematic_break on every line over {-, *, _, space, tab, a} up to a length; the same lines as one-line documents vs tb_spec",
         "ATX openings: Model/AtxOpen.v atx_impl (vm_compute) vs AtxLeafBlockProcessor.is_atx_heading on every line with a # over {#, space, tab, a} up to a length; the same lines as one-line documents vs atx_spec",
+        "escaping: Model/AppendText.v append_impl (vm_compute) vs InlineHelper.append_text with and without the signature, and ParserHelper.remove_all_from_text / resolve_all_from_text on its result, on every string over {a, <, >, &, \", space, e-acute} up to a length",
         "on a disagreement markdown-it-py is asked: only PyMarkdown-vs-(CM = markdown-it) counts as a violation with a two-party witness; CM-vs-both breaks the check (spec model at fault)",
     ]
     return ctx.finish(
         level="other",
         extra_cov={"exhaustive": ctx.tier == "thorough", "explanation": "theorems are about the spec model CM (escape safety, tag balance of its renderer, fragment membership); that PyMarkdown refines CM is decided by comparing rendered HTML on enumerated documents of the fragment F"},
-        rule="all documents of <= 3 lines over a 23-template leaf vocabulary and over a 16-template container vocabulary, 4-line container documents, 2-line documents over an extended container vocabulary, lists nested to depth three (3-5 items, tight / loose at every level, bullet and ordered), restricted to the fragment F (a tab only between letters or digits, no link / HTML / escape characters); the link-destination kernel on all strings of <= 4 (quick 3) characters over a 12-character alphabet + 5-character strings over 5, and link/image/definition documents built from them; the label kernel on all strings of <= 4 (quick 3) characters over letters of both cases and the six white-space characters, 300 / 3000 definition scripts, 200 / 729 documents with competing definitions; the thematic-break kernel on all lines of <= 4 (+ 1500 of 5) / 6 characters over {-, *, _, space, tab, a} and those lines as documents; the ATX kernel on all lines of <= 5 / 7 characters over {#, space, tab, a}; quick = seed-selected subsets; non-trivial = a document of 3+ lines; distinct by document",
+        rule="all documents of <= 3 lines over a 23-template leaf vocabulary and over a 16-template container vocabulary, 4-line container documents, 2-line documents over an extended container vocabulary, lists nested to depth three (3-5 items, tight / loose at every level, bullet and ordered), restricted to the fragment F (a tab only between letters or digits, no link / HTML / escape characters); the link-destination kernel on all strings of <= 4 (quick 3) characters over a 12-character alphabet + 5-character strings over 5, and link/image/definition documents built from them; the label kernel on all strings of <= 4 (quick 3) characters over letters of both cases and the six white-space characters, 300 / 3000 definition scripts, 200 / 729 documents with competing definitions; the thematic-break kernel on all lines of <= 4 (+ 1500 of 5) / 6 characters over {-, *, _, space, tab, a} and those lines as documents; the ATX kernel on all lines of <= 5 / 7 characters over {#, space, tab, a} and structured lines of 1-8 hashes behind every indentation; the escaping kernel on all strings of <= 4 / 6 characters over 7; quick = seed-selected subsets; non-trivial = a document of 3+ lines; distinct by document",
         assumptions=["outside F (links apart from their destination, HTML blocks, backslash escapes, named references, tabs) nothing is claimed",
                      "documents that do not parse are C01's business"],
     )
